@@ -19,7 +19,10 @@ for s in seeds:
     d = os.path.join(VERIF, 'seeded', s)
     meta = json.load(open(os.path.join(d, 'meta.json')))
     props = extra[0] if extra else meta.get('check_with', [meta['property']])
-    subprocess.run(['git', '-C', REPO, 'apply', os.path.join(d, 'patch.diff')], check=True)
+    if subprocess.run(['git', '-C', REPO, 'apply', os.path.join(d, 'patch.diff')]).returncode != 0:
+        results.setdefault(s, {})['_'] = dict(exit=None, note='patch does not apply to the current HEAD')
+        print(f'{s:10s} patch does not apply', flush=True)
+        continue
     try:
         for p in props:
             t0 = time.time()
